@@ -5,6 +5,7 @@ import (
 	"math/rand"
 	"sort"
 	"strings"
+	"time"
 
 	"github.com/Tom-Johnston/mamba/graph"
 )
@@ -205,6 +206,10 @@ func c01Isomorphic(g, h EG) bool {
 func c01Refine(nb [][]int, c []int, cells int, work []int) int {
 	n := len(c)
 	keyv := make([]int, n)
+	var rank []int
+	seen := make([]bool, n+2)
+	work = append([]int(nil), work...)
+	nw := make([]int, 0, n+1)
 	for len(work) > 0 {
 		mi := 0
 		for k := range work {
@@ -225,7 +230,15 @@ func c01Refine(nb [][]int, c []int, cells int, work []int) int {
 				maxc = x + 1
 			}
 		}
-		rank := make([]int, (maxc+1)*(n+1)+1) // rank[k] = number of distinct keys < k
+		size := (maxc+1)*(n+1) + 1 // rank[k] = number of distinct keys < k
+		if cap(rank) < size {
+			rank = make([]int, size)
+		} else {
+			rank = rank[:size]
+			for k := range rank {
+				rank[k] = 0
+			}
+		}
 		for v := 0; v < n; v++ {
 			k := 0
 			for _, w := range nb[v] {
@@ -244,10 +257,12 @@ func c01Refine(nb [][]int, c []int, cells int, work []int) int {
 			c[v] = rank[keyv[v]]
 		}
 		first := func(x int) int { return rank[x*(n+1)] }
-		seen := map[int]bool{}
-		nw := work[:0:0]
+		for k := range seen {
+			seen[k] = false
+		}
+		nw = nw[:0]
 		add := func(x int) {
-			if !seen[x] {
+			if x < len(seen) && !seen[x] {
 				seen[x] = true
 				nw = append(nw, x)
 			}
@@ -262,7 +277,7 @@ func c01Refine(nb [][]int, c []int, cells int, work []int) int {
 				}
 			}
 		}
-		work = nw
+		work = append(work[:0], nw...)
 		cells = ncells
 	}
 	return cells
@@ -289,7 +304,11 @@ func c01Leaves(g EG, classes [][]int, limit int) int {
 			}
 		}
 	}
-	cells = c01Refine(nb, c, cells, []int{0})
+	work := make([]int, cells)
+	for i := range work {
+		work[i] = i
+	}
+	cells = c01Refine(nb, c, cells, work)
 	count := 0
 	var rec func(c []int, cells int)
 	rec = func(c []int, cells int) {
@@ -461,6 +480,67 @@ func c01Graph6(s string) EG {
 	})
 }
 
+// c01ComponentUnion: a disjoint union of random small components (cycles, paths, stars, cliques, complete bipartite
+// graphs, isolated vertices) with exactly n vertices.
+func c01ComponentUnion(r *rand.Rand, n int) EG {
+	g := EG{N: 0}
+	for g.N < n {
+		left := n - g.N
+		var c EG
+		switch r.Intn(6) {
+		case 0:
+			c = c01Cycles(1, 3+r.Intn(6))
+		case 1: // path
+			k := 2 + r.Intn(5)
+			c = c01FromAdj(k, func(u, v int) bool { return v-u == 1 })
+		case 2: // star
+			c = c01Multipartite(1, 2+r.Intn(5))
+		case 3:
+			c = c01Multipartite([]int{1, 1, 1, 1, 1}[:3+r.Intn(3)]...)
+		case 4:
+			c = c01Multipartite(2+r.Intn(2), 2+r.Intn(3))
+		default:
+			c = EG{N: 1}
+		}
+		if c.N > left {
+			c = EG{N: 1}
+		}
+		g = c01Union(g, c)
+	}
+	return g
+}
+
+// c01CycleUnion: cycles of pairwise different lengths plus one star, path or clique, n vertices in all. All the cycle
+// vertices have the same degree but lie in different orbits, so after the first refinement there is a big cell whose
+// vertices are not equivalent: skipping or repeating one of them changes the result.
+func c01CycleUnion(r *rand.Rand, n int) EG {
+	g := EG{N: 0}
+	for _, l := range r.Perm(7) {
+		k := l + 3
+		if g.N+k <= n-2 || g.N+k == n {
+			g = c01Union(g, c01Cycles(1, k))
+		}
+		if n-g.N < 5 {
+			break
+		}
+	}
+	if left := n - g.N; left > 0 {
+		switch r.Intn(3) {
+		case 0:
+			if left >= 2 {
+				g = c01Union(g, c01Multipartite(1, left-1))
+			} else {
+				g = c01Union(g, EG{N: left})
+			}
+		case 1:
+			g = c01Union(g, c01FromAdj(left, func(u, v int) bool { return v-u == 1 }))
+		default:
+			g = c01Union(g, c01FromAdj(left, func(u, v int) bool { return true }))
+		}
+	}
+	return g
+}
+
 type c01Named struct {
 	name string
 	g    EG
@@ -511,10 +591,13 @@ func c01Families(thorough bool) []c01Named {
 		c01Named{"prism4+M8", c01Union(prism(4), moebius(8))}, c01Named{"C6+2C3+K33", c01Union(c01Union(c01Cycles(1, 6), c01Cycles(2, 3)), c01Multipartite(3, 3))},
 		c01Named{"K33+prism3+K33", c01Union(c01Union(c01Multipartite(3, 3), prism(3)), c01Multipartite(3, 3))},
 		c01Named{"C5+C4+C3", c01Union(c01Cycles(1, 5), c01Union(c01Cycles(1, 4), c01Cycles(1, 3)))},
-		c01Named{"rook3+paley9", c01Union(c01Rook(3), c01Paley(9))})
+		c01Named{"rook3+paley9", c01Union(c01Rook(3), c01Paley(9))},
+		// two copies of a strongly regular graph: its complement is the most sensitive detector found for stale
+		// best-leaf orbits (currentBestOrbits not reset on a new best leaf)
+		c01Named{"2shrikhande", c01Union(c01Shrikhande(), c01Shrikhande())})
 	if thorough {
 		out = append(out, c01Named{"kneser8", c01Kneser(8)}, c01Named{"rook3+rook4+Q3", c01Union(c01Union(c01Rook(3), c01Rook(4)), c01Hypercube(3))},
-			c01Named{"2shrikhande", c01Union(c01Shrikhande(), c01Shrikhande())}, c01Named{"2paley13", c01Union(c01Paley(13), c01Paley(13))})
+			c01Named{"2paley13", c01Union(c01Paley(13), c01Paley(13))})
 	}
 	n := len(out)
 	for i := 0; i < n; i++ {
@@ -756,7 +839,11 @@ func c01LeafLimit(n, budget int) int {
 
 // c01Line builds a canon/canonx request for g with k random relabellings (g itself is relabelled first).
 func c01Line(r *rand.Rand, g EG, k int, budget int) string {
-	g = g.Relabel(r.Perm(g.N))
+	return c01LineBase(r, g.Relabel(r.Perm(g.N)), k, budget)
+}
+
+// c01LineBase: like c01Line but g keeps its labelling.
+func c01LineBase(r *rand.Rand, g EG, k int, budget int) string {
 	name := "canon"
 	if lim := c01LeafLimit(g.N, budget); c01Leaves(g, nil, lim) > lim {
 		name = "canonx"
@@ -858,6 +945,53 @@ func c01Gen(r *rand.Rand, tier string, emit func(string)) {
 		}
 		emit(c01Line(r, c01FromAdj(n, func(u, v int) bool { return a[u][v] }), reps, budget))
 	}
+	// big cells: (complements of) disjoint unions of small components with 21..40 vertices. The first refinement sorts
+	// one cell of more than 20 vertices by neighbour counts with many ties (merge phase of the stable sort, one-element
+	// blocks when n = 21 or 41), and the partition stays far from discrete.
+	nb := 36
+	if thorough {
+		nb = 400
+	}
+	for i := 0; i < nb; i++ {
+		var g EG
+		switch i % 4 {
+		case 0:
+			g = c01ComponentUnion(r, 21+r.Intn(14))
+		case 1:
+			g = c01CycleUnion(r, 22+r.Intn(5))
+		default: // n = 21: the merge step inserts a single element into a sorted block of 20
+			g = c01CycleUnion(r, 21)
+		}
+		emit(c01Line(r, c01Complement(g), 8, budget/4)) // mostly there for the relabelling oracle
+		if i%2 == 0 {
+			emit(c01Line(r, g, 6, budget/4))
+		}
+	}
+	// regular / near-regular random graphs with 21..32 vertices
+	for i := 0; i < nb/2; i++ {
+		n := 21 + r.Intn(12)
+		a := make([][]bool, n)
+		for k := range a {
+			a[k] = make([]bool, n)
+		}
+		for d := 0; d < 1+r.Intn(3); d++ {
+			p := r.Perm(n)
+			for k := 0; k < n; k++ {
+				u, v := p[k], p[(k+1)%n]
+				a[u][v], a[v][u] = true, true
+			}
+		}
+		g := c01FromAdj(n, func(u, v int) bool { return a[u][v] })
+		if i%2 == 1 {
+			g = c01Complement(g)
+		}
+		emit(c01Line(r, g, 6, budget))
+	}
+	// cells of 12..14 vertices split by counts (insertion sort block of the stable sort, threshold of sort.Slice)
+	for i := 0; i < nb/2; i++ {
+		g := c01ComponentUnion(r, 12+r.Intn(3))
+		emit(c01Line(r, c01Complement(g), 8, budget))
+	}
 	// circulants, exhaustive
 	maxCirc := 11
 	if thorough {
@@ -877,6 +1011,9 @@ func c01Gen(r *rand.Rand, tier string, emit func(string)) {
 	// named families
 	for _, f := range c01Families(thorough) {
 		emit(c01Line(r, f.g, reps, budget))
+		// the constructed labelling itself as the base graph: structured labellings reach corners of the search that
+		// random ones rarely do
+		emit(c01LineBase(r, f.g, reps, budget))
 	}
 	// pairs: isomorphic / nearly isomorphic
 	np := 400
@@ -909,7 +1046,8 @@ func c01Gen(r *rand.Rand, tier string, emit func(string)) {
 }
 
 func init() {
-	register(&Proto{Name: "canon", Props: []string{"C01"}, Run: func(a []string) Result { return c01RunCanon(a, false) }, Gen: c01Gen})
-	register(&Proto{Name: "canonx", Props: []string{}, Run: func(a []string) Result { return c01RunCanon(a, true) }, Gen: func(*rand.Rand, string, func(string)) {}})
+	// the search is exponential on some of the big-cell families: a generous limit (termination, not speed, is checked)
+	register(&Proto{Name: "canon", Props: []string{"C01"}, Run: func(a []string) Result { return c01RunCanon(a, false) }, Gen: c01Gen, Timeout: 10 * time.Minute})
+	register(&Proto{Name: "canonx", Props: []string{}, Run: func(a []string) Result { return c01RunCanon(a, true) }, Gen: func(*rand.Rand, string, func(string)) {}, Timeout: 10 * time.Minute})
 	register(&Proto{Name: "canon2", Props: []string{}, Run: c01RunCanon2, Gen: func(*rand.Rand, string, func(string)) {}})
 }
